@@ -262,6 +262,10 @@ def run(rep: Report, prog: Program, tier: str) -> None:
                 for t in (10, 11, 12, 13):
                     if t not in have:
                         hook.run_method(rd, me, [chunks[t]], {})
+                    if t == 11:
+                        # the network duplicates the FORWARD-TSN: a copy arrives again later
+                        hook.run_method(rf, me, [SimpleNamespace(cumulative_tsn=9, streams=list(fwd.streams), flags=0)], {})
+                hook.run_method(rf, me, [SimpleNamespace(cumulative_tsn=9, streams=list(fwd.streams), flags=0)], {})
             except Raised as ex:
                 rep.fail(mk_finding(prog, PROP, "C06-RECV", rf, getattr(ex, "node", None), f"[{label}] raises {ex.name}", construct=f"forward-tsn raises {ex.name}"))
                 continue
@@ -276,5 +280,31 @@ def run(rep: Report, prog: Program, tier: str) -> None:
                 rep.fail(mk_finding(prog, PROP, "C06-RECV", rf, rf.node,
                                     f"[{label}] the reliable stream delivered {got} (cumulative TSN {me._last_received_tsn}); expected {want}: abandoning a message "
                                     f"{'on another channel ' if not same_stream else ''}lost or blocked messages that were never abandoned", construct="receiver: " + ("same" if same_stream else "other") + " stream"))
+    # duplicated FORWARD-TSN while the cumulative TSN is held back by a chunk of another stream
+    for unordered2 in (False, True):
+        label = f"duplicate FORWARD-TSN while an unrelated chunk is missing (other stream {'unordered' if unordered2 else 'ordered'})"
+        me = SimpleNamespace(__cls__=ci, _last_received_tsn=8, _sack_needed=False, _sack_duplicates=[], _sack_misordered=set(), _inbound_streams={}, _inbound_streams_max=65535,
+                             _advertised_rwnd=100000, delivered=[])
+        x = chunk(10, 2, 0, (UNORD if unordered2 else 0) | FIRST | LAST, b"X0")
+        r1 = chunk(11, 1, 1, FIRST | LAST, b"R1")
+        r2 = chunk(12, 1, 2, FIRST | LAST, b"R2")
+        mk_fwd = lambda: SimpleNamespace(cumulative_tsn=9, streams=[(1, 0)], flags=0)  # noqa: E731
+        try:
+            hook.run_method(rf, me, [mk_fwd()], {})
+            hook.run_method(rd, me, [r1], {})
+            hook.run_method(rf, me, [mk_fwd()], {})
+            hook.run_method(rd, me, [r2], {})
+            hook.run_method(rd, me, [x], {})
+        except Raised as ex:
+            rep.fail(mk_finding(prog, PROP, "C06-RECV", rf, getattr(ex, "node", None), f"[{label}] raises {ex.name}", construct=f"forward-tsn raises {ex.name}"))
+            continue
+        except Unknown as ex:
+            raise AnalysisError(f"C06-RECV cannot evaluate [{label}]: {ex}")
+        got = [(d[0], bytes(d[2])) for d in me.delivered]
+        if [g for g in got if g[0] == 1] == [(1, b"R1"), (1, b"R2")] and (2, b"X0") in got and len(got) == 3:
+            rep.ok("C06-RECV", label, sample="the duplicate is ignored; R1, R2 and X delivered once")
+        else:
+            rep.fail(mk_finding(prog, PROP, "C06-RECV", rf, rf.node, f"[{label}] delivered {got}; expected R1 and R2 on stream 1 and X on stream 2, each once: a duplicated FORWARD-TSN "
+                                f"rewound the stream's expected sequence number", construct="receiver: duplicate FORWARD-TSN"))
     if n_cases < 20 or n_recv < 60:
         raise AnalysisError("evaluation families are smaller than expected")
